@@ -57,6 +57,9 @@ class Prop(PropBase):
     def generate(self, rng, n, tier):
         cases = []
         for _ in range(n):
+            if rng.random() < 0.12:
+                cases.append(gen_rf_case(rng))
+                continue
             pairs, cmap = G.gen_context(rng)
             avail = [k for k, _ in pairs]
             r = rng.random()
@@ -109,6 +112,17 @@ class Prop(PropBase):
         v = case['val']
         res = obs['res']
         cmap = {k: x for k, x in case['ctx']}
+        try:
+            want = ref_format(v, cmap, False, 0)
+        except RefUnsupported:
+            want = None
+        except RefMissing:
+            want = 'missing'
+        if want == 'missing':
+            pass        # covered by missing-key-raises below
+        elif want is not None and not (res[0] == 'ok' and pv.pv_equal(res[1], want)):
+            out.append(fail('documented-rules', f'{v!r} formatted to {res!r}; the documented rules '
+                                                f'(single-expression / one-level / rf / ff) give {want!r}'))
         if isinstance(v, dict) and 'sic' in v:
             if res != ['ok', v['sic']]:
                 out.append(fail('sic-verbatim', f'!sic {v["sic"]!r} formatted to {res!r}'))
@@ -203,3 +217,95 @@ def _has_obj(v):
     if isinstance(v, list):
         return any(_has_obj(x) for x in v)
     return False
+
+
+# ---- a clean-room evaluator of the DOCUMENTED rules on a small fragment: '{ident}' fields with
+# spec '' / 'rf' / 'ff', plain scalars, strs, lists, tuples, dicts. Written from the property text.
+class RefUnsupported(Exception):
+    pass
+
+
+class RefMissing(Exception):
+    pass
+
+
+def ref_str(x):
+    if isinstance(x, bool) or x is None or isinstance(x, int):
+        return str(x)
+    if isinstance(x, str):
+        return x
+    raise RefUnsupported()
+
+
+def ref_format(v, cmap, rec, depth):
+    if depth > 40:
+        raise RefUnsupported()
+    if v is None or isinstance(v, (bool, int)):
+        return v
+    if isinstance(v, str):
+        if '{' not in v and '}' not in v:
+            return v
+        try:
+            items = list(string.Formatter().parse(v))
+        except ValueError:
+            raise RefUnsupported()
+        if any('{' in it[0] or '}' in it[0] for it in items):
+            raise RefUnsupported()      # escapes: covered by the escapes monitor
+        fields = [it for it in items if it[1] is not None]
+        for lit, name, spec, conv in fields:
+            if conv or spec not in ('', 'rf', 'ff') or not name.isidentifier():
+                raise RefUnsupported()
+        nent = sum(1 for it in items if it[0]) + len(fields)
+        if nent == 1 and len(fields) == 1:
+            name, spec = fields[0][1], fields[0][2]
+            if name not in cmap:
+                raise RefMissing()
+            obj = cmap[name]
+            if spec == 'ff':
+                return obj
+            return ref_format(obj, cmap, True if spec == 'rf' else rec, depth + 1)
+        out = []
+        for lit, name, spec, conv in items:
+            out.append(lit)
+            if name is None:
+                continue
+            if name not in cmap:
+                raise RefMissing()
+            obj = cmap[name]
+            if spec == 'rf' or (rec and spec != 'ff'):
+                obj = ref_format(obj, cmap, True, depth + 1)
+            out.append(ref_str(obj))
+        return ''.join(out)
+    if isinstance(v, dict):
+        if 'l' in v:
+            return {'l': [ref_format(x, cmap, rec, depth + 1) for x in v['l']]}
+        if 't' in v:
+            return {'t': [ref_format(x, cmap, rec, depth + 1) for x in v['t']]}
+        if 'd' in v:
+            ks = [ref_format(k, cmap, rec, depth + 1) for k, _ in v['d']]
+            if any(not isinstance(k, (str, int)) or isinstance(k, bool) for k in ks) or len(set(map(repr, ks))) != len(ks):
+                raise RefUnsupported()
+            return {'d': [[k, ref_format(x, cmap, rec, depth + 1)] for k, (_, x) in zip(ks, v['d'])]}
+    raise RefUnsupported()
+
+
+def gen_rf_case(rng):
+    """rf / ff through containers: elements that are mixed text referencing keys that hold
+    further expressions."""
+    c = rng.choice(['C', 'see', 7])
+    ctx = [['c', c], ['b', rng.choice(['{c}', 'b{c}b', '{c}{c}'])],
+           ['a', rng.choice(['{b}', 'a {b}', '{b} {c}'])]]
+    elems = [rng.choice(['x {b} y', '{b}', '{a}!', 'plain', '{a} and {b}', 3]) for _ in range(rng.randrange(1, 4))]
+    kind = rng.choice(['l', 'l', 't', 'd', 'nested'])
+    if kind == 'l':
+        cont = {'l': elems}
+    elif kind == 't':
+        cont = {'t': elems}
+    elif kind == 'd':
+        cont = {'d': [[f'k{i}', e] for i, e in enumerate(elems)]}
+    else:
+        cont = {'l': [{'d': [['in', elems[0]]]}, {'t': elems}]}
+    ctx.append(['cont', cont])
+    val = rng.choice(['{cont:rf}', '{cont}', '{cont:ff}', {'l': ['{cont:rf}', '{a:rf}']}, '{a:rf}', 'pre {a:rf} post',
+                      {'d': [['k', '{cont:rf}']]}, '{a}', 'mix {a} {b:rf} {c:ff}'])
+    return {'ctx': ctx, 'val': val}
